@@ -91,8 +91,8 @@ def shared_jobs(tier, s0, names=None):
     # (A2) a population that is not a multiple of the usual group counts (documented + 1), both directions, d <= 1 over
     #      the choice points of the initialisation (an extreme initial agent is the best one for max, the worst for min)
     for n in names:
-        for mm in ('min', 'max'):
-            jobs.append((_scn(n, 'cont3z', mm, 2, seed=s0, over={'population_size': registry.doc_population(n) + 1},
+        for add, mm in ((1, 'min'), (1, 'max'), (2, 'max')):
+            jobs.append((_scn(n, 'cont3z', mm, 2, seed=s0, over={'population_size': registry.doc_population(n) + add},
                               odd_population=True), {'d': 1, 'range': 'init'}))
     # (C) modes through the model pools: schedule / worker-assignment deviations, and worker counts
     for n in names:
@@ -118,7 +118,7 @@ def shared_jobs(tier, s0, names=None):
     # (E2) populations that are not multiples of the usual group counts (beyond the property's 1x..3x alphabet): exact
     #      size is still required except for Henry Gas, which regroups into equal clusters by design
     for n in names:
-        for add in (1, 3):
+        for add in (1, 2, 3):
             for cyc in (2, 3):
                 jobs.append((_scn(n, cycles=cyc, seed=s0, over={'population_size': registry.doc_population(n) + add},
                                   odd_population=True), {'d': 0}))
